@@ -75,7 +75,7 @@ CLAIMED = {
     ),
     "C01": (
         "exploration",
-        "Node level: 2-4 real nodes over 1-4 key pairs (explicit or password-derived), each node's trusted set any subset of the keys, random dial orientation per pair, staggered starts, optional restart, mild loss / duplication / in-flight bit flips and truncation, then a reliable phase; an adversary that sees every genuine handshake datagram reacts with field edits (stage, node-id hash, ECDH key, cipher list, payload, part and signature lengths, signature bytes), single bit flips, truncations, length corruptions and random bodies behind the marker, sent to the original destination (racing the genuine datagram), back at the sender, or from an unknown address - which reaches receivers that are fresh, awaiting pong, awaiting peng, established with and without lingering handshake. Oracles: (a) after every step every peer entry is backed by mutual trust; (b) every handshake datagram that, as the receiver parses it (stale buffer tail included), carries no valid signature of a key the receiver trusts - decided by an independent reference verifier (sim/src/refmodel.rs) - changes no state and causes no reply; (c) every dialled, mutually trusting pair ends connected; (d) payload reaches an interface only from a sender that completed a handshake with a mutually trusted key (unsealed payload is presented from addresses of handshakes in progress).",
+        "Node level: 2-4 real nodes over 1-4 key pairs (explicit or password-derived), each node's trusted set any subset of the keys, random dial orientation per pair, staggered starts, optional restart, mild loss / duplication / in-flight bit flips and truncation, then a reliable phase; an adversary that sees every genuine handshake datagram reacts with field edits (stage, node-id hash, ECDH key, cipher list, payload, part and signature lengths, signature bytes), single bit flips, truncations, length corruptions and random bodies behind the marker, signatures that verify under degenerate public keys (R of small order, S = 0) behind unknown key hashes, sent to the original destination (racing the genuine datagram), back at the sender, or from an unknown address - which reaches receivers that are fresh, awaiting pong, awaiting peng, established with and without lingering handshake. Oracles: (a) after every step every peer entry is backed by mutual trust; (b) every handshake datagram that, as the receiver parses it (stale buffer tail included), carries no valid signature of a key the receiver trusts - decided by an independent reference verifier (sim/src/refmodel.rs) - changes no state and causes no reply; (c) every dialled, mutually trusting pair ends connected; (d) payload reaches an interface only from a sender that completed a handshake with a mutually trusted key (unsealed payload is presented from addresses of handshakes in progress).",
         "Trusted: simulator seams, the reference verifier (own TLV walk + ring Ed25519 verify), snapshots as the definition of 'state' (peers, pending handshakes and stages, lingering stage, claim table, own addresses, reconnect entries - not the replay window or traffic counters). Steps in which housekeeping ran are excluded from the no-reply clause. The exhaustive every-bit / every-truncation sweep per stage of the quantifier is sampled, not enumerated.",
         "DESIGN.md section 8, C01",
         "seeded trust relations and reactive adversary; invariant + before/after snapshot per unverifiable datagram",
